@@ -1,0 +1,83 @@
+//go:build verif
+
+package main
+
+// Contracts checked by /verif (govc). Comment-only file; not part of normal builds.
+
+// ---- C18: what one sync step may write ----
+// processRef is the only place of regsync that writes to a registry or layout (frame below).
+// Every write is an ImageCopy, and
+//   - a check-only run reaches none of them;
+//   - the backup copy goes from the entry's own target to the backup name, before anything else
+//     was copied, and only when the target exists and differs;
+//   - the sync copy goes from the entry's source (or the digest of the configured platform of that
+//     source) to exactly the entry's target, after the backup copy was made when one is configured.
+//@ ghost $copies int
+//@ ghost $backupOK bool
+//@ callsite (*~.RegClient).ImageCopy(ctx, refSrc, refTgt, opts)
+//@   prop C18
+//@   name ImageCopy/backup
+//@   in ~/cmd/regsync
+//@   infunc \)\.processRef$
+//   (which call is the backup copy is decided by the state, not by its arguments: the first copy
+//   made while a backup is due - so a sync copy made without the due backup is judged as one)
+//@   where is-backup: $copies == 0 && caller.tgtExists && !caller.tgtMatches && caller.s.Backup != ""
+//@   requires not-in-check-run: caller.action != actionCheck
+//@   requires from-the-entrys-target-to-the-backup-name: refSrc == caller.tgt && caller.tgt == old(caller.tgt) && refTgt == caller.backupRef
+//@ callsite (*~.RegClient).ImageCopy(ctx, refSrc, refTgt, opts)
+//@   prop C18
+//@   name ImageCopy/sync
+//@   in ~/cmd/regsync
+//@   infunc \)\.processRef$
+//@   where is-sync: !($copies == 0 && caller.tgtExists && !caller.tgtMatches && caller.s.Backup != "")
+//@   requires not-in-check-run: caller.action != actionCheck
+//@   requires to-the-entrys-target: refTgt == old(caller.tgt)
+//@   requires from-the-entrys-source: refSrc == caller.src && (caller.src == old(caller.src) || (old(caller.s).Platform != "" && caller.src.Tag == old(caller.src).Tag && caller.src.Repository == old(caller.src).Repository && caller.src.Registry == old(caller.src).Registry))
+//@   requires at-most-one-copy-before: $copies <= 1 && ($copies == 1 ==> caller.tgtExists && !caller.tgtMatches && caller.s.Backup != "")
+//@   requires backup-succeeded-first: caller.tgtExists && !caller.tgtMatches && caller.s.Backup != "" ==> $backupOK
+//@ func (*rootOpts).processRef(ctx, s, src, tgt, action) (err)
+//@   prop C18
+//@   entry-assume $copies == 0 && !$backupOK
+//@   on-call ImageCopy: $copies = $copies + 1
+//@   on-call ImageCopy: $backupOK = ($copies == 1 && result == nil)
+//@   loop 0 ()
+//@     invariant nothing-copied-yet: $copies == 0 && !$backupOK && tgt == old(tgt) && src.Tag == old(src).Tag && src.Repository == old(src).Repository && src.Registry == old(src).Registry
+//@   ensures check-run-writes-nothing: action == actionCheck ==> $copies == 0
+
+// processRepo: every tag that passed the filters is handed to processImage with the SAME tag on
+// the source and the target repository, and a run that reports success processed all of them
+// successfully.
+//@ ghost $tagsDone int
+//@ ghost $tagsOK bool
+//@ callsite (*rootOpts).processImage(ctx, s, src, tgt, action)
+//@   prop C18
+//@   name processImage/processRepo
+//@   in ~/cmd/regsync
+//@   infunc \)\.processRepo$
+//@   requires same-tag-on-both-sides: src == $sprintf2("%s:%s", any(caller.src), any(caller.tag)) && tgt == $sprintf2("%s:%s", any(caller.tgt), any(caller.tag))
+//@   requires a-filtered-tag: 0 <= caller.$idx && caller.$idx < len(caller.sTagList) && caller.tag == caller.sTagList[caller.$idx]
+//@   requires same-step-and-action: s == old(caller.s) && action == old(caller.action)
+//@ callsite builtin.append(list, add)
+//@   prop C18
+//@   name append/errs
+//@   in ~/cmd/regsync
+//@   infunc \)\.processRepo$
+//@   requires only-real-errors-recorded: len(add) == 1 && add[0] != nil
+//@ func (*rootOpts).processRepo(ctx, s, src, tgt, action) (err)
+//@   prop C18
+//@   entry-assume $tagsDone == 0 && $tagsOK
+//@   on-call processImage: $tagsDone = $tagsDone + 1
+//@   on-call processImage: $tagsOK = $tagsOK && result == nil
+//@   loop 1 (tag)
+//@     invariant errors-recorded: forall(k, 0, len(errs), errs[k] != nil) && (len(errs) > 0 ==> errs[0] != nil)
+//@     invariant all-so-far: -1 <= $idx && $idx < len(sTagList) && $tagsDone == $idx + 1 && ($tagsOK == (len(errs) == 0)) && src == old(src) && tgt == old(tgt) && s == old(s) && action == old(action)
+//@   ensures success-means-every-filtered-tag-synced: err == nil && len(sTagList) > 0 ==> $tagsDone == len(sTagList) && $tagsOK
+
+// filterList: filters are anchored as a whole - "^(?:" + filter + ")$" - so that an alternation
+// cannot match a mere prefix or suffix of a tag.
+//@ callsite regexp.Compile(expr)
+//@   prop C18
+//@   name regexp.Compile/filterList
+//@   in ~/cmd/regsync
+//@   infunc regsync\.filterList$
+//@   requires anchored-as-a-group: expr == "^(?:" + caller.filter + ")$"
